@@ -14,6 +14,7 @@ BUILTIN = {
     'OverflowError': OverflowError, 'OSError': OSError, 'UnicodeDecodeError': UnicodeDecodeError,
     'KeyboardInterrupt': KeyboardInterrupt, 'SystemExit': SystemExit,
     'GeneratorExit': GeneratorExit, 'Exception': Exception,
+    'StopIteration': StopIteration,      # (what generator frames turn into RuntimeError, PEP 479)
 }
 
 
